@@ -1123,8 +1123,10 @@ fn block_expr_to_asg_type(block_synast: synast::BlockExpr, context: &mut Context
 fn block_or_stmt_to_asg_type(val: oq3_syntax::BlockOrStmt, context: &mut Context) -> asg::Block {
     match val {
         oq3_syntax::BlockOrStmt::BlockExpr(body) => block_expr_to_asg_type(body, context),
+        // Some statements are only evaluated and yield no statement in the graph: an `include`
+        // (which is reported as an error here, below global scope) or an annotation.
         oq3_syntax::BlockOrStmt::Stmt(stmt) => {
-            asg::Block::new(vec![stmt_to_asg_stmt(stmt, context).unwrap()])
+            asg::Block::new(stmt_to_asg_stmt(stmt, context).into_iter().collect())
         }
     }
 }
